@@ -79,6 +79,8 @@ func (o *RawOrigin) serveConn(c net.Conn) {
 func (o *RawOrigin) Since(seq int) []OriginReq {
 	o.mu.Lock()
 	defer o.mu.Unlock()
+	noteMu.Lock()
+	defer noteMu.Unlock()
 	var out []OriginReq
 	for _, r := range o.log {
 		if r.Seq > seq {
